@@ -15,6 +15,7 @@ use std::process::Command;
 const SOUP: &[&str] = &[
     "# ", "## ", "- ", "* ", "1. ", "7) ", "> ", "```\n", "```rust\n", "\n", "\n\n", "  ", "    ", "\t", "|", " | ", "|---|\n", "---\n", "***\n", "===\n", "[a](b)", "[a](b.md)", "[[x]]", "[[x|y]]",
     "<div>\n", "</div>\n", " <div>x</div>\n", "<!-- c -->", "text", "word ", "*", "_", "`", "\\", "\r\n", "日本", "é", "😀", "![i](u)", "~~", "$x$", "[^1]", "- [ ] ", ":-:", "<a@b.c>", "&amp;", "[r]: /u\n", "[r]", "+ ",
+    "[日本語のノート](日本語のノート)", "[заметка](заметка)", "[[日本語のノート]]", "[[заметка|текст]]", "[x](ÀÉÎÕÜàéî)", "[u](héllo-wörld-ünï)", "[m](MAILTO:a@b)", "[h](HtTp://X.y)", "[t](ht日本tp://x)", "[p](abcde日本語)", "[q](abcdef日本語)",
     "   - ", "      ", "> > ", ">- ", "1. - ", "-\n", "- \n", "\u{a0}", "\u{2028}", "http://x.y", "<http://x.y>", "](", ")", "[", "]",
 ];
 
